@@ -188,6 +188,10 @@ func (g *Generator) AdjustEnv(env []*nri.KeyValue) {
 
 // AdjustArgs adjusts the process arguments in the OCI Spec.
 func (g *Generator) AdjustArgs(args []string) {
+	// an empty first argument is the removal marker used by UpdateArgs
+	if len(args) != 0 && args[0] == "" {
+		args = args[1:]
+	}
 	if len(args) != 0 {
 		g.SetProcessArgs(args)
 	}
